@@ -5,6 +5,7 @@ import ClaripyProofs.Lemmas.AST.BitsSound
 import ClaripyProofs.Lemmas.AST.CmpSound
 import ClaripyProofs.Lemmas.AST.AndEqNeSound
 import ClaripyProofs.Lemmas.AST.MinMaxSound
+import ClaripyProofs.Lemmas.AST.Built
 /-!
 # C01 — bit-vector and Boolean expressions mean exactly what the written operations say
 
@@ -144,11 +145,35 @@ example : acEquiv .add 8 (.app .add [.app .add [.bvs "a" 8, .bvv 3 8], .app .add
     (.app .add [.bvs "a" 8, .bvs "b" 8, .bvv 8 8]) = true := by decide
 example : acEquiv .add 8 (.app .add [.bvs "a" 8, .bvs "b" 8]) (.app .add [.bvs "a" 8, .bvs "c" 8]) = false := by decide
 
-/-- The complete property for the model: any constructor (`build`) returning `e` for a well-typed written
-tree `t` satisfies `eval env e = eval env t`.  Not proved in full: `build` is not modelled as one function;
-the proved parts are the theorems above plus the folding bridge lemmas. -/
+/-- One justified step at the root of a node whose operands are already built (`Claripy.AST.Direct`: keep the node, fold it,
+rewrite it by a schema, or rewrite it in a way a certificate check accepts) preserves the value of a well-typed node. -/
+theorem C01_direct_sound {t r : Expr} (h : Direct t r) (env : Env) (hwt : eval env t ≠ .err) : eval env r = eval env t :=
+  Direct_sound h env hwt
+
+/-- **C01, the constructor as a whole.**  `Built t r`: `r` is obtained from the written tree `t` bottom-up, every node being
+kept, folded, or rewritten by a justified step, and the tree a rewrite writes down being itself built by the constructors —
+re-entrantly, to any depth, any number of times ("again after any further operations").  Whatever is built this way denotes
+what was written, under every assignment.  The correspondence check establishes, for every node construction of every
+generated tree, that the real constructor's result is explained by such a step (the ~1% it cannot explain are counted in the
+evidence). -/
+theorem C01_built_sound (env : Env) {t r : Expr} (h : Built t r) (hwt : eval env t ≠ .err) : eval env r = eval env t :=
+  Built_sound env h hwt
+
+/-- The complete property for an arbitrary constructor function: `build` returns only what `Built` allows.  For such a
+constructor the property is `C01_built_sound`; that the real constructor is one is what the correspondence samples. -/
 def C01_full (build : Expr → Option Expr) : Prop :=
   ∀ (t e : Expr) (env : Env), build t = some e → eval env t ≠ .err → eval env e = eval env t
+
+theorem C01_full_of_built (build : Expr → Option Expr) (h : ∀ t e, build t = some e → Built t e) : C01_full build :=
+  fun t e env hb hwt => Built_sound env (h t e hb) hwt
+
+/-- non-vacuity: `(x + 0#8) ^ (x + 0#8)`… a two-level derivation: the inner node is rewritten by a schema, the outer by another -/
+example : Built (.app .bxor [.app .sub [.bvs "x" 8, .bvv 0 8], .bvs "x" 8]) (.bvv 0 8) := by
+  refine .node .bxor _ [.bvs "x" 8, .bvs "x" 8] (.bvv 0 8) _ ?_ ?_ (.refl _)
+  · refine .cons _ _ _ _ ?_ (.cons _ _ _ _ (.refl _) .nil)
+    exact .node .sub _ [.bvs "x" 8, .bvv 0 8] (.bvs "x" 8) _ (.cons _ _ _ _ (.refl _) (.cons _ _ _ _ (.refl _) .nil))
+      (Direct.schema R.sub_zero { x := .bvs "x" 8, w := 8 } (by simp [R.all, R.base]) rfl) (.refl _)
+  · exact Direct.schema R.xor_self { x := .bvs "x" 8, w := 8 } (by simp [R.all, R.widthy]) (by decide)
 
 /-- Non-vacuity: the nested-shift schema applies to a concrete well-typed node, and its side condition is
 exactly what rules out the wrap-around that the unrepaired code got wrong. -/
